@@ -13,6 +13,7 @@ import (
 	plrt "github.com/GuanceCloud/platypus/pkg/engine/runtime"
 	"github.com/GuanceCloud/platypus/pkg/inimpl/guancecloud/input"
 	"github.com/GuanceCloud/platypus/pkg/parser"
+	v2 "github.com/GuanceCloud/platypus/pkg/engine/runtimev2"
 	vsync "github.com/GuanceCloud/platypus/pkg/verifsync"
 
 	"verif/mc/internal/drv"
@@ -35,6 +36,24 @@ type c15Op struct {
 
 type c15Env struct {
 	scripts map[string]*plrt.Script // loaded once, shared by all histories (as a host would)
+	v2      map[string]*v2.Script   // the same for the v2 interpreter
+}
+
+var c15V2Sources = map[string]string{
+	// default values of a callee changed in place by the script: every call gets new ones
+	"dflt.p": "r = dflt()\np(r)\nl = r[0]\nl[0] = \"changed\"\nm = r[1]\nm[\"k\"] = 2\nm[\"added\"] = true\np(r)\n",
+	"vars.p": "x = 1\nsecret = [1]\nfor i in [1, 2] { if i == 2 { p(1 / nil) } }\n",
+	"read.p": "p(one())\ny = 2\nif y { p(y) }\n",
+}
+
+func c15LoadV2() map[string]*v2.Script {
+	out := map[string]*v2.Script{}
+	for name, src := range c15V2Sources {
+		if sc, err := drv.LoadV2(name, src); err == nil {
+			out[name] = sc
+		}
+	}
+	return out
 }
 
 var c15Sources = map[string]string{
@@ -130,6 +149,19 @@ func c15Ops() []c15Op {
 			return runOnPooledPoint(ok[main], pts[pi], 0)
 		}}
 	}
+	runV2 := func(name string) c15Op {
+		return c15Op{Name: "runv2(" + name + ")", Do: func(env *c15Env) string {
+			sc := env.v2[name]
+			if sc == nil {
+				return "v2 script does not load"
+			}
+			res := drv.RunV2(sc, &drv.Sig{FireAt: 500})
+			if res.Panic != "" {
+				return "PANIC " + res.Panic
+			}
+			return fmt.Sprintf("trace=%v err=%v", res.Trace, res.Err)
+		}}
+	}
 	grokExpr := "grok(_, \"%{WORD:first} %{INT:n:int}\")\n"
 	return []c15Op{
 		loadRun("grok with global patterns", map[string]string{"g.p": "if true {\n" + grokExpr + "}\n"}, "g.p", 0),
@@ -139,6 +171,8 @@ func c15Ops() []c15Op {
 		load("syntax-error", "a = (1 +\nb = 2\n"),
 		load("lexer-error", "a = \"unterminated\nb = 2\n"),
 		load("parser-panic-input", "x = -0x\nfor a in 1e {}\n"),
+		// a constructor fault in the very last token of the text, no line break after it
+		load("fault-at-end-of-input", "x = -a[1/0]"),
 		load("check-error", "add_key(k, 1)\nnosuch(1)\n"),
 		load("check-error-inside-loops", "for ;; { for v in [1] { nosuch(1) } }\n"),
 		load("stray-break", "x = 1\nif x { break }\n"),
@@ -160,6 +194,9 @@ func c15Ops() []c15Op {
 		runOp("jsonmut.p", 0, 0),
 		runOp("usebad.p", 0, 0),
 		runOp("pf.p", 1, 0),
+		runV2("dflt.p"),
+		runV2("vars.p"),
+		runV2("read.p"),
 	}
 }
 
@@ -227,6 +264,7 @@ func c15Run(w *run.Worker) {
 		return
 	}
 	env.scripts = loaded
+	env.v2 = c15LoadV2()
 	// baselines: each operation executed FIRST IN A FRESH PROCESS (package-level state
 	// such as caches cannot be reset from inside a process)
 	base := make([]string, len(ops))
@@ -345,6 +383,7 @@ func c15BaseMain(args []string) int {
 		return 2
 	}
 	env.scripts = loaded
+	env.v2 = c15LoadV2()
 	var i int
 	fmt.Sscanf(args[0], "%d", &i)
 	if i < 0 || i >= len(ops) {
@@ -368,6 +407,7 @@ func c15Replay(raw json.RawMessage) (bool, string) {
 		return false, fmt.Sprint(errs)
 	}
 	env.scripts = loaded
+	env.v2 = c15LoadV2()
 	if len(c.History) == 0 {
 		return false, "empty history"
 	}
@@ -384,7 +424,7 @@ func init() {
 	run.Register(&run.Check{
 		ID:    "C15",
 		Level: "model_checking",
-		Rule: "operation histories of length <=3 (thorough <=4) over 18 operations: load-and-run of a grok script with global patterns / under a local pattern of the same name / of another deployment whose entry file has the same text as a loaded one; load of a valid / syntax-error / lexer-error / parser-panic / check-error source; run of scripts that succeed, fail inside a loop, exit inside nested blocks, set variables, read the same names unbound, use grok + use(), delete and re-add tags and fields, each on a point taken from the point pool; runs cancelled at poll 1 and 7; " +
+		Rule: "operation histories of length <=3 (thorough <=4) over 30 operations: load-and-run of a grok script with global patterns / under a local pattern of the same name / of another deployment whose entry file has the same text as a loaded one; load of a valid / syntax-error / lexer-error / parser-panic / check-error source, of texts entering every lexer mode, of a text whose last token (no line break after it) raises a constructor fault; v2 runs of scripts that change default parameter values in place, fail inside a loop after assigning variables, read names; run of scripts that succeed, fail inside a loop, exit inside nested blocks, set variables, read the same names unbound, use grok + use(), delete and re-add tags and fields, each on a point taken from the point pool; runs cancelled at poll 1 and 7; " +
 			"instrumented build with a sync.Pool shim: the answer of EVERY pool Get (parser, task, point, metadata) is an explorer choice — default LIFO reuse, then every deviation (any other pooled object, or a fresh one) at every Get, <=2 deviations per history (<=1 for the histories of maximal length); " +
 			"oracle: the last operation's outcome (load verdict and error text / probe trace, canonical final point, error text, drop flag) equals the outcome of the same operation executed first in a fresh process (baselines are computed in separate subprocesses); loaded scripts are shared by all histories",
 		Assumptions: []string{"the pools and the loaded syntax trees are the only state that survives an operation (package-level variables were listed by reading the sources)"},
